@@ -356,3 +356,19 @@ func Concurrent(fs ...func()) {
 	}
 	wg.Wait()
 }
+
+// AltBase64 returns a different unpadded base64url text that decodes to the same bytes as s (the unused low
+// bits of the last character are changed); ok is false when s has no unused bits (length divisible by 4).
+func AltBase64(s string) (string, bool) {
+	const alphabet = "ABCDEFGHIJKLMNOPQRSTUVWXYZabcdefghijklmnopqrstuvwxyz0123456789-_"
+	if len(s)%4 == 0 || len(s) == 0 {
+		return s, false
+	}
+	last := s[len(s)-1]
+	for i := 0; i < len(alphabet); i++ {
+		if alphabet[i] == last {
+			return s[:len(s)-1] + string(alphabet[i^1]), true
+		}
+	}
+	return s, false
+}
